@@ -1,5 +1,5 @@
 """Contracts for pygamma_agreement/numba_utils.py  (tier A: numeric kernels, unbounded proofs)."""
-from pyvc.contract import (contract, cl, GhostFun, Macro, Lemma, NdArray, ListOf, IntT, RealT, TupleOf, FnT)
+from pyvc.contract import (contract, cl, global_ghost, GhostFun, Macro, Lemma, NdArray, ListOf, IntT, RealT, TupleOf, FnT)
 
 F = "pygamma_agreement/numba_utils.py::"
 
@@ -51,35 +51,37 @@ contract(F + "build_A",
 
 # ----------------------------------------------------------------------------------------- iter_tuples (generator)
 # ghost: mixed-radix weights w and rank;  the k-th yielded tuple is in the box and has rank k;  exactly P = w(n) yields.
+global_ghost("w", "AInt Int -> Int",
+             ["forall([(sz, AInt)], w(sz, 0) == 1)",
+              "forall([(sz, AInt), a], implies(a >= 0, w(sz, a + 1) == w(sz, a) * sz[a]), pat=[w(sz, a + 1)])"])
+global_ghost("rank", "AInt AInt Int -> Int",
+             ["forall([(sz, AInt), (t, AInt)], rank(sz, t, 0) == 0)",
+              "forall([(sz, AInt), (t, AInt), a], implies(a >= 0, rank(sz, t, a + 1) == rank(sz, t, a) + t[a] * w(sz, a)),"
+              " pat=[rank(sz, t, a + 1)])"])
 RANK_GHOST = dict(
-    ghost_funs=[GhostFun("w", "Int -> Int"), GhostFun("rank", "AInt Int -> Int"), GhostFun("tmax", "-> AInt")],
-    axioms=["w(0) == 1",
-            "forall(a, implies(0 <= a and a < nt, w(a + 1) == w(a) * sizes[a]), pat=[w(a + 1)])",
-            "forall([(t, AInt)], rank(t, 0) == 0)",
-            "forall([(t, AInt), a], implies(0 <= a and a < nt, rank(t, a + 1) == rank(t, a) + t[a] * w(a)),"
-            " pat=[rank(t, a + 1)])",
-            "forall(j, tmax[j] == sizes[j] - 1)"],          # the all-maximal tuple (definitional)
+    ghost_funs=[GhostFun("tmax", "-> AInt")],
+    axioms=["forall(j, tmax[j] == sizes[j] - 1)"],          # the all-maximal tuple (definitional)
 )
 RANK_LEMMAS = [
-    Lemma("w_pos", "w(a) >= 1", binders=[("a", "Int")], hyps=["0 <= a", "a <= nt"], method=("induction", "a", "0")),
-    Lemma("rank_bounds", "0 <= rank(t, a) and rank(t, a) <= w(a) - 1",
+    Lemma("w_pos", "w(sizes, a) >= 1", binders=[("a", "Int")], hyps=["0 <= a", "a <= nt"], method=("induction", "a", "0")),
+    Lemma("rank_bounds", "0 <= rank(sizes, t, a) and rank(sizes, t, a) <= w(sizes, a) - 1",
           binders=[("t", "AInt"), ("a", "Int")],
           hyps=["0 <= a", "a <= nt", "forall(j, 0, a, 0 <= t[j] and t[j] < sizes[j])"],
           method=("induction", "a", "0")),
-    Lemma("rank_zeros", "rank(t, a) == 0", binders=[("t", "AInt"), ("a", "Int")],
+    Lemma("rank_zeros", "rank(sizes, t, a) == 0", binders=[("t", "AInt"), ("a", "Int")],
           hyps=["0 <= a", "a <= nt", "forall(j, 0, a, t[j] == 0)"], method=("induction", "a", "0")),
-    Lemma("rank_max", "rank(t, a) == w(a) - 1", binders=[("t", "AInt"), ("a", "Int")],
+    Lemma("rank_max", "rank(sizes, t, a) == w(sizes, a) - 1", binders=[("t", "AInt"), ("a", "Int")],
           hyps=["0 <= a", "a <= nt", "forall(j, 0, a, t[j] == sizes[j] - 1)"], method=("induction", "a", "0")),
-    Lemma("rank_suffix", "rank(t, b) - rank(t, a) == rank(t2, b) - rank(t2, a)",
+    Lemma("rank_suffix", "rank(sizes, t, b) - rank(sizes, t, a) == rank(sizes, t2, b) - rank(sizes, t2, a)",
           binders=[("t", "AInt"), ("t2", "AInt"), ("a", "Int"), ("b", "Int")],
           hyps=["0 <= a", "a <= b", "b <= nt", "forall(j, a, b, t[j] == t2[j])"], method=("induction", "b", "a")),
     Lemma("rank_injective", "forall(j, 0, a, t[j] == t2[j])",
           binders=[("t", "AInt"), ("t2", "AInt"), ("a", "Int")],
           hyps=["0 <= a", "a <= nt", "forall(j, 0, a, 0 <= t[j] and t[j] < sizes[j] and 0 <= t2[j] and t2[j] < sizes[j])",
-                "rank(t, a) == rank(t2, a)"], method=("induction", "a", "0")),
+                "rank(sizes, t, a) == rank(sizes, t2, a)"], method=("induction", "a", "0")),
     Lemma("rank_max_inv", "forall(j, 0, nt, t[j] == sizes[j] - 1)", binders=[("t", "AInt")],
-          hyps=["forall(j, 0, nt, 0 <= t[j] and t[j] < sizes[j])", "rank(t, nt) == w(nt) - 1"],
-          hints=["rank(tmax, nt) == w(nt) - 1", "forall(j, 0, nt, 0 <= tmax[j] and tmax[j] < sizes[j])"]),
+          hyps=["forall(j, 0, nt, 0 <= t[j] and t[j] < sizes[j])", "rank(sizes, t, nt) == w(sizes, nt) - 1"],
+          hints=["rank(sizes, tmax, nt) == w(sizes, nt) - 1", "forall(j, 0, nt, 0 <= tmax[j] and tmax[j] < sizes[j])"]),
 ]
 
 contract(F + "iter_tuples",
@@ -91,12 +93,12 @@ contract(F + "iter_tuples",
          lemmas=RANK_LEMMAS,
          yields=[cl("len(yielded) == nt", name="len"),
                  cl("in_box(yielded)", "C01 C07 C11", name="in_box"),
-                 cl("rank(yielded, nt) == nyield", "C07 C02", name="rank")],
-         count="w(nt)",
+                 cl("rank(sizes, yielded, nt) == nyield", "C07 C02", name="rank")],
+         count="w(sizes, nt)",
          loops={
              "L0": dict(match="while True",
-                        inv=["len(current) == nt", "in_box(current)", "rank(current, nt) == nyield", "nyield < w(nt)"],
-                        variant="w(nt) - nyield"),
+                        inv=["len(current) == nt", "in_box(current)", "rank(sizes, current, nt) == nyield", "nyield < w(sizes, nt)"],
+                        variant="w(sizes, nt) - nyield"),
              "L0.0": dict(match="for i in range(nb_annotators)",
                           inv=["len(current) == nt",
                                "forall(j, 0, i, c0[j] == sizes[j] - 1 and current[j] == 0)",
@@ -104,10 +106,10 @@ contract(F + "iter_tuples",
          },
          hooks=[("after", "yield current", "c0 = current"),
                 # proof hints at the carry exit (they name the terms the rank lemmas are instantiated on)
-                ("before", "break", "assert rank(current, i) == 0 and rank(c0, i) == w(i) - 1"),
-                ("before", "break", "assert rank(current, i + 1) == current[i] * w(i) and "
-                                    "rank(c0, i + 1) == w(i) - 1 + c0[i] * w(i)"),
-                ("before", "break", "assert rank(current, nt) - rank(current, i + 1) == rank(c0, nt) - rank(c0, i + 1)")],
+                ("before", "break", "assert rank(sizes, current, i) == 0 and rank(sizes, c0, i) == w(sizes, i) - 1"),
+                ("before", "break", "assert rank(sizes, current, i + 1) == current[i] * w(sizes, i) and "
+                                    "rank(sizes, c0, i + 1) == w(sizes, i) - 1 + c0[i] * w(sizes, i)"),
+                ("before", "break", "assert rank(sizes, current, nt) - rank(sizes, current, i + 1) == rank(sizes, c0, nt) - rank(sizes, c0, i + 1)")],
          ghost_vars={"c0": ("AInt", None)},
          serves={"C01", "C02", "C07", "C11"},
          **RANK_GHOST)
